@@ -116,6 +116,15 @@ CHECKS = {
             'level, must validate against it; for Number/Integer every out-of-bounds probe (incl. nextafter and exactly-on-exclusive-bound) must be rejected.',
             'bounded-exhaustive enumeration of configurations x states, decided by the jsonschema Draft-7 validator',
             BASE_NOTE + ' Trusted: jsonschema 4.26 (vendored offline by setup.sh).'),
+    'C19': ('model_checking', 'DESIGN.md §3 C19',
+            'Two slices on real time-dependent generators (two UniformRandom with the same name and seed, one with another seed, a SquareWave; two '
+            'instances; the global param.Time): (micro) BFS over jumps, +1/-1, reads through either instance, inspect_value, nested time contexts and '
+            '_state_push/_state_pop; (macro) after a warm-up that fills the (name, seed, time) table for every time of the alphabet, BFS to depth 8 '
+            'over jump-and-read, push/pop (nested) and nested time contexts.  Every read must equal the value first produced for its (name, seed, time), '
+            'on any instance and after any visiting order; inspection shows the last produced value and does not advance it; leaving a context restores '
+            'the time; pop restores what inspection showed at the push.',
+            'explicit-state BFS over operation histories of the real code vs. a (generator, seed, time) table',
+            BASE_NOTE + ' Times are kept >= 0 (the cache uses -1 as its "never produced" sentinel: reading at time -1 before any read raises, noted in DESIGN.md).'),
     'C20': ('exploration', 'DESIGN.md §3 C20',
             'For four class shapes (default constructor, positional+keyword custom constructor, keyword whose signature default differs from the '
             'Parameter default, nested Parameterized values) every listed value of every parameter (negative/huge ints, +-inf, escapes, bytes, None, '
